@@ -656,6 +656,21 @@ func c12CheckSample(xs []float64) string {
 	if iqr := s.IQR(); !(math.Abs(iqr-(s.Percentile(0.75)-s.Percentile(0.25))) <= 0) {
 		return fmt.Sprintf("IQR(%v) = %v", xs, iqr)
 	}
+	// a buffer that is asked, refilled in place and asked again (a reused read buffer, in-place rescaling): the
+	// answers are those of the values it holds now
+	buf := append([]float64{}, xs...)
+	bs := Sample{Xs: buf}
+	bs.Percentile(0.5)
+	bs.Percentile(0.25)
+	for i := range buf {
+		buf[i] = xs[len(xs)-1-i]*1000 + float64(i)
+	}
+	fresh := Sample{Xs: append([]float64{}, buf...)}
+	for _, p := range []float64{0.25, 0.5, 0.75, 0.1} {
+		if got, want := bs.Percentile(p), fresh.Percentile(p); got != want && !(math.IsNaN(got) && math.IsNaN(want)) {
+			return fmt.Sprintf("Percentile(%v) of a slice refilled in place with %v = %v, a fresh slice of the same values gives %v", p, buf, got, want)
+		}
+	}
 	return ""
 }
 
